@@ -35,6 +35,7 @@ build() {
     for prof in simfast simchk; do
       (cd "$SIM" && cargo clean --offline --quiet -p ckc-rs --profile "$prof") >/dev/null 2>&1 || true
     done
+    [ -d "$SIM/target/native" ] && (cd "$SIM" && CARGO_TARGET_DIR="$SIM/target/native" cargo clean --offline --quiet -p ckc-rs --profile simfast) >/dev/null 2>&1
     rm -f "$stamp"
   fi
   for prof in simfast simchk; do
@@ -157,6 +158,14 @@ case "${1:-}" in
       fi
       rm -f "$out"; exit 0
     fi
+    if command -v jq >/dev/null 2>&1 && [ "$(jq -r '.profile // ""' "$2" 2>/dev/null)" = native ]; then
+      # found under the target-cpu=native configuration: replay it there
+      NAT="$SIM/target/native"
+      if (cd "$SIM" && CARGO_TARGET_DIR="$NAT" RUSTFLAGS="-C target-cpu=native" cargo build --offline --quiet --profile simfast) >"$SIM/target/native-build.log" 2>&1; then
+        $NOASLR "$NAT/simfast/ckc-sim" replay "$2"; exit $?
+      fi
+      echo "NOTE: cannot build the target-cpu=native configuration; replaying under the default one"
+    fi
     $NOASLR "$FAST" replay "$2"
     rc=$?
     if [ $rc -le 1 ] && [ -x "$CHK" ]; then
@@ -170,7 +179,7 @@ case "${1:-}" in
   C15|C19)
     prop="$1"; tier="${2:-${VERIF_TIER:-quick}}"
     case "$tier" in quick|thorough) ;; *) echo "usage: check.sh <C15|C19> <quick|thorough>" >&2; exit 2;; esac
-    "$ROOT/scripts/premise_audit.sh" || true
+    CKC_REPO="${CKC_REPO:-$(repo_path)}" "$ROOT/scripts/premise_audit.sh" || true
     build || exit 2
     concargs=()
     if has_atomics; then
@@ -188,7 +197,18 @@ case "${1:-}" in
       fi
       flock -u 9 2>/dev/null || true
     fi
-    "$FAST" check --prop "$prop" --tier "$tier" --root "$ROOT" --other-bin "$CHK" "${concargs[@]}"
+    nativeargs=()
+    if [ "$tier" = thorough ]; then
+      # a third configuration: the same sources built for this machine's own instruction set
+      # (-C target-cpu=native), so that code under cfg(target_feature = …) is not dead in every process
+      NAT="$SIM/target/native"
+      if (cd "$SIM" && CARGO_TARGET_DIR="$NAT" RUSTFLAGS="-C target-cpu=native" cargo build --offline --quiet --profile simfast) >"$SIM/target/native-build.log" 2>&1; then
+        nativeargs=(--third-bin "$NAT/simfast/ckc-sim")
+      else
+        echo "NOTE: the target-cpu=native configuration could not be built (log: $SIM/target/native-build.log); skipped"
+      fi
+    fi
+    "$FAST" check --prop "$prop" --tier "$tier" --root "$ROOT" --other-bin "$CHK" "${concargs[@]}" "${nativeargs[@]}"
     rc=$?
     [ -n "${rep:-}" ] && rm -f "$rep"
     exit $rc
